@@ -129,6 +129,7 @@ class InterpBase:
         self._site_ids: Dict[Tuple, int] = {}
         self.pairs_base: Dict[Any, Length] = {}
         self.opaque_funcs: set = set()
+        self.number_locals: bool = False
         self.list_version: Dict[str, int] = {}
         self.quiet = 0
         from .builtins import Builtins
